@@ -169,6 +169,17 @@ theorem newkeys_resets_outbound (s : St) (x : Ext) (he : s.err = none) (hs : s.a
     by_cases hn : x.needRekey = true <;>
       simp [St.send, St.andThen, he, hs, hext, hn, St.fail]
 
+/-- **The strict marker counts at every position of the peer's kex list.**  The scan of `_parse_kex_init` goes over the
+whole name list: whatever real algorithm names or `ext-info-*` stand before or after it, one occurrence of the
+expected marker makes the agreed mode equal to what we advertise.  (AST of `_parse_kex_init`, read on every run:
+the scan is a `for` over the whole list, not a look at its tail.) -/
+theorem strict_marker_counts_anywhere (sv adv : Bool) (pre post : List String) (acc : Option String × Bool)
+    (hpre : ∀ a ∈ pre, a.startsWith "kex-strict-" = false)
+    (hpost : ∀ a ∈ post, a.startsWith "kex-strict-" = false) :
+    (scanMarkers sv adv (pre ++ expectedMarker sv :: post) acc).2 = adv ∧
+      Generated.C12.markerScanCoversWholeList = true :=
+  ⟨scanMarkers_marker_anywhere sv adv pre post acc hpre hpost, by decide⟩
+
 /-- **Strict mode is for the life of the session (1).**  A re-exchange KEXINIT that carries no `kex-strict-*` name
 (what peers do that send the marker only in their first KEXINIT) leaves the agreed mode exactly as the initial
 exchange left it — so `newkeys_resets_inbound/outbound` keep applying to every later NEWKEYS. -/
